@@ -5,6 +5,7 @@ V = os.path.dirname(os.path.dirname(os.path.abspath(__file__)))
 props = [json.loads(l) for l in open(os.path.join(V, "properties.jsonl"))]
 TRUST = "trusted: TLC/SANY, JDK SHA-256/BigInteger (accelerators cross-checked against their TLA+ definitions by ./check selftest), the Go driver as a sensor"
 C = {
+ "C05": ("TLC checks for every scalar of scaled machines that the signed-window recoding reconstructs the scalar with all table indices in range and no carry out of the top window (and that this needs the modulus headroom), and in the W73 world that the table-based multiplication with the code's mixed extended addition computes s*G for every scalar and point; at real size every recorded commitment on digit/carry-class programs is judged against sum v_i G_i computed by the specification over an SRS that is itself checked against the specified CRS derivation; table rows are compared entry by entry", "4 C05"),
  "C06": ("TLC decides on EVERY byte string of a small Bandersnatch-like world that the decoders accept exactly the canonical subgroup encodings (and shows the pre-repair decoder does not); at real size every recorded decode of the real code is judged by the specification's acceptance predicate computed from the bytes alone, with every input class required non-empty", "4 C06"),
  "C07": ("TLC explores every pair of projective representations of every element of the W37 world through the code's own formulas: Equal <=> equal bytes <=> same class, all-zero guard; at real size the Equal matrix, Bytes and decode round trips of the whole pool are judged after every call of TLC-generated API histories", "4 C07"),
  "C08": ("TLC checks on every transition of the W37 representation space that the code's projective formulas compute the affine group law, and the group laws for all points and scalars; at real size every call of TLC-generated API histories (all aliasings, scalar edge classes) is judged against the specification's group element", "4 C08"),
